@@ -1,5 +1,6 @@
 CONSTANTS
   Devs = {}
+  EosChoices = {TRUE}
   MaxPrefix = 1
   MaxSuffix = 1
 INIT Init
